@@ -258,3 +258,18 @@ mod test {
         ));
     }
 }
+
+#[cfg(redb_verif)]
+impl Savepoint {
+    /// Verification hook: (savepoint id, transaction id, captured data root, ephemeral)
+    #[allow(missing_docs)]
+    pub fn verif_info(&self) -> (u64, u64, crate::verif_types::VerifRoot, bool) {
+        (
+            self.id.0,
+            self.transaction_id.raw_id(),
+            self.user_root
+                .map(|h| (u64::from_le_bytes(h.root.to_le_bytes()), h.checksum, h.length)),
+            self.ephemeral,
+        )
+    }
+}
